@@ -7,8 +7,12 @@ Decides (DESIGN.md C04), for every state and every limiter outcome:
  F3 every interior face is visited exactly once (shared with C10-S1/S2);
  F4 the positivity safeguard is on every final write of mass / energy / density / pressure;
  F5 a boundary (ghost) flux changes only the inside cell;
- F6 the read-modify-write updates of F1 are never concurrent on one subgrid (C07 rules G4, G8 re-checked).
-Finiteness, the reflective-wall clause and the size of the round-off are numeric and not decided.
+ F6 the read-modify-write updates of F1 are never concurrent on one subgrid (C07 rules G4, G8 re-checked);
+ F7 for a mirror pair of face states the HLLC mass and energy flux vanish on every branch that gas moving into a wall with
+    Mach number <= 1.5 can take, for gamma in (1, 2] (decision tree specialised to the mirror pair; branch-and-bound
+    interval evaluation of the branch conditions; c04_wall.py);
+ F8 the ghost state of ReflectiveHydroBoundary is the mirror image of the wall cell.
+Finiteness, the size of the round-off and the symmetry of the second-order face reconstruction at a wall are not decided.
 """
 import sympy as sp
 
@@ -48,7 +52,10 @@ def run(chk, prog):
         "cell cancel exactly, all five carry the same factor relative to the Riemann solver's output, boundary fluxes touch "
         "only the inside cell, and the final writes of mass, energy, density and pressure are max(.,0) clamps or "
         "non-negative by construction on every path. With C10 (each face once) this is conservation up to round-off "
-        "wherever the safeguard does not intervene. Finiteness and the reflective-wall clause are numeric.")
+        "wherever the safeguard does not intervene. At a reflecting wall the ghost state is the mirror image of the wall cell, "
+        "and for a mirror pair the HLLC mass and energy flux are identically zero on every branch of the solver that can be "
+        "taken for a wall-normal Mach number in [0, 1.5] and gamma in (1, 2] (the other branches are excluded by outward-"
+        "rounded interval evaluation of their conditions on a subdivided box). Finiteness is numeric and not decided.")
     u = prog.umbrella
     chk.analysed(unit="umbrella")
     n = 0
@@ -183,3 +190,11 @@ def run(chk, prog):
            "(%d C07 obligations G4, G8 re-checked)" % no, "src/TaskBasedRadiationHydrodynamicsSimulation.cpp")
     chk.floor("F6", no, 1000)
 
+    # F7 / F8: the reflecting-wall clause as far as it is algebra (c04_wall.py): the ghost state is the mirror image, and
+    # for a mirror pair the HLLC mass and energy flux vanish on every branch reachable with a wall-normal Mach number
+    # in [0, 1.5] for gamma in (1, 2]
+    from . import c04_wall
+    n8 = c04_wall.rule_F8(chk, u)
+    chk.floor("F8", n8, 45)
+    n7 = c04_wall.rule_F7(chk, u)
+    chk.floor("F7", n7, 20)
